@@ -95,7 +95,8 @@ def h_query(X, tier):
 
     shape, pairs = _pairs(X, tier, QA, QC, EXTRA_T)
     X.assume(R.urlencoded_representable(pairs))
-    base = X.choose("base", [b"/path", b"/p;par?old=1&x#frag"]) if shape == "many" else b"/path"
+    # (a path may legitimately begin with two slashes: its first segment must not be mistaken for an authority)
+    base = X.choose("base", [b"/path", b"/p;par?old=1&x#frag", b"//cdn/lib.js?v=1"]) if shape == "many" else X.choose("base1", [b"/path", b"//cdn/lib.js?v=1"])
     req = tutils.treq(path=base)
     other_headers = list(req.headers.fields)
     try:
